@@ -201,7 +201,7 @@ func recordMain(args []string) {
 	n := fs.Int("n", 3000, "number of random events")
 	seed := fs.Int64("seed", 1, "seed")
 	corpus := fs.String("corpus", "", "testdata directory of the repository (its expressions are recorded too)")
-	mode := fs.String("mode", "general", "general | sort | unicode | mutate | typed")
+	mode := fs.String("mode", "general", "general | sort | unicode | mutate | typed | typedmutate | reexec")
 	maxLen := fs.Int("maxlen", 200, "largest array in sort mode")
 	inPath := fs.String("in", "", "mode reexec: a replay file holding a recorded event")
 	fs.Parse(args)
@@ -351,13 +351,20 @@ func recordMain(args []string) {
 		fmt.Printf("{\"written\":%d,\"skipped\":%d,\"panics\":%d}\n", written, skipped, panics)
 		return
 	}
-	if *mode == "typed" {
-		// type-directed grower (typed.go): expressions that mean something on the document they are run on
+	if *mode == "typed" || *mode == "typedmutate" {
+		// type-directed grower (typed.go): expressions that mean something on the document they are run on;
+		// typedmutate applies one to three small edits to each (lets, by-functions, filters and calls cut,
+		// doubled or unbalanced: mostly outside the grammar, C04)
 		tg := &tgen{r: g.r, root: typedSchema()}
 		for i := 0; i < *n; i++ {
 			doc := tg.doc()
 			tg.vars = tg.vars[:0]
 			e, _ := tg.expr(tg.root, 1+g.r.Intn(4))
+			if *mode == "typedmutate" {
+				for k := 1 + g.r.Intn(3); k > 0; k-- {
+					e = g.edit(e)
+				}
+			}
 			emit(fmt.Sprintf("typ%d.%d", *seed, i), e, doc)
 		}
 		fmt.Printf("{\"written\":%d,\"skipped\":%d,\"panics\":%d}\n", written, skipped, panics)
